@@ -23,7 +23,7 @@ def main():
               'fall-through, rethrow and raise-in-catch; exits by completion, break, continue, return, nested; '
               'every variable in scope is a unique integer printed after each try; online monitor: handler depth == '
               'live depth at every PushHandler, no live handler of a frame at its Return'),
-        n_quick=500, n_thorough=15000, layouts=2, stat_keys=('handler_pushes',),
+        n_quick=2000, n_thorough=100000, layouts=2, stat_keys=('handler_pushes',),
         requires=[('handler_pushes', 2000, 50000), ('model_unwinds', 500, 15000)], extra_check=extra)
 
 
